@@ -128,6 +128,7 @@ def run(ctx: Ctx):
     ctx.states += r.distinct
     ctx.transitions += r.generated
     ctx.notes["trace_validation"] = {"states": r.distinct, "wall_s": round(r.wall_s, 1)}
+    ctx.notes["resolver_outcomes_exercised_by_real_lists"] = dict(batch.KIND_COUNTS)
     ctx.notes["chains_of_3_or_more"] = sum(1 for rec in records if len([c for c in rec["chain"]
                                                                          if rec["ins"][c - 1]["pos"]]) >= 3)
     for tid, (failed, drift) in sorted(verdicts.items()):
